@@ -206,6 +206,11 @@ def settings_numbers_not_narrowed(ctx):
 
 
 def run(ctx):
+    from .C13 import compile_dropin_refuses_whole_unit
+    compile_dropin_refuses_whole_unit(ctx)
+    from .C13 import compile_keeps_nothing_between_calls
+    compile_keeps_nothing_between_calls(ctx, "C12")
+    integer_text_is_decimal(ctx, "C12")
     from .C13 import dropin_unit_holds_merged_targets
     dropin_unit_holds_merged_targets(ctx)
     size_components_kept_in_double(ctx, "C12")
